@@ -86,6 +86,7 @@ Escape(i) ==
   LET e == C(i + 1) IN
   IF e = "n" THEN <<"\n", 2>> ELSE IF e = "t" THEN <<"\t", 2>> ELSE IF e = "\\" THEN <<"\\", 2>> ELSE IF e = "\"" THEN <<"\"", 2>>
   ELSE IF e = "r" THEN <<"\r", 2>>
+  ELSE IF e = "a" THEN <<Chr(7), 2>> ELSE IF e = "b" THEN <<Chr(8), 2>> ELSE IF e = "f" THEN <<Chr(12), 2>> ELSE IF e = "v" THEN <<Chr(11), 2>>
   ELSE IF e = "x" /\ HexVal(C(i + 2)) >= 0 /\ HexVal(C(i + 3)) >= 0 /\ Chr(16 * HexVal(C(i + 2)) + HexVal(C(i + 3))) # ""
        THEN <<Chr(16 * HexVal(C(i + 2)) + HexVal(C(i + 3))), 4>>
   ELSE IF In(e, "0123") /\ In(C(i + 2), "01234567") /\ In(C(i + 3), "01234567")
@@ -98,6 +99,8 @@ RECURSIVE ScanStr(_, _, _)          \* interpreted string body from i: <<value, 
 ScanStr(i, acc, nl) ==
   IF i > N THEN <<acc, 0, nl>>
   ELSE IF C(i) = "\"" THEN <<acc, i, nl>>
+  \* a backslash directly before a line end: the literal spans lines (unspecified, see LexString)
+  ELSE IF C(i) = "\\" /\ C(i + 1) = "\n" THEN ScanStr(i + 1, acc \o "\\", TRUE)
   ELSE IF C(i) = "\\" THEN (IF Escape(i)[2] = 0 THEN <<acc, 0, nl>> ELSE ScanStr(i + Escape(i)[2], acc \o Escape(i)[1], nl))
   ELSE ScanStr(i + 1, acc \o C(i), nl \/ C(i) = "\n")
 
@@ -129,8 +132,11 @@ NumStart == IsDigit(C(pos)) \/ (C(pos) = "-" /\ IsDigit(C(pos + 1)) /\ ~OperandE
 LexNumber == /\ Scanning /\ NumStart
              /\ LET s == IF C(pos) = "-" THEN pos + 1 ELSE pos
                     e == RunEnd(s, TRUE)
-                IN toks' = Append(toks, Tok("NUMBER_LITERAL", SubSeq(Text, pos, e))) /\ Consume(e)
-             /\ UNCHANGED <<err, unspec>>
+                IN /\ toks' = Append(toks, Tok("NUMBER_LITERAL", SubSeq(Text, pos, e))) /\ Consume(e)
+                   \* digits "." digits is a floating-point literal in Go; the language has no such type and the property speaks of
+                   \* integers only, so the case is flagged unspecified and never compared
+                   /\ unspec' = (unspec \/ (C(e + 1) = "." /\ IsDigit(C(e + 2))))
+             /\ UNCHANGED err
 LexWord == /\ Scanning /\ IsWordStart(C(pos))
            /\ LET e == RunEnd(pos, FALSE)
                   w == SubSeq(Text, pos, e)
